@@ -37,9 +37,13 @@ func (propC04) Gen(r *Rng, run uint64, tier string) *Plan {
 		spec.Msg = "rich"
 	}
 	switch x := r.Intn(100); {
-	case x < 6:
+	case x < 5:
 		// many sources
 		spec.NMin, spec.NMax, spec.RecMax = 9, 24, 6
+	case x < 7:
+		spec.NMin, spec.NMax, spec.RecMax = 25, 70, 4
+	case x < 8:
+		spec.NMin, spec.NMax, spec.RecMax = 100, 140, 2
 	case x < 12:
 		// long logs, deep heap refills
 		spec.RecMax, spec.Hi = 150, BaseNs+120*sec
